@@ -1,6 +1,6 @@
 PROPERTY = "C02"
 LEVEL = "proof"
-LEAN_MODULES = ["CifModel.Props.C02", "CifModel.Props.C02Doc", "CifModel.Props.C02Total", "CifModel.Props.C02Column", "CifModel.Props.C02Lines", "CifModel.Props.ReviewC02"]
+LEAN_MODULES = ["CifModel.Props.C02", "CifModel.Props.C02Doc", "CifModel.Props.C02Total", "CifModel.Props.C02Column", "CifModel.Props.C02Lines", "CifModel.Props.C02Hyp", "CifModel.Props.ReviewC02"]
 REQUIRED = ["CifModel.C02_text_protocol", "CifModel.C02_fold_line_progress", "CifModel.C02_text_total",
             "CifModel.C02_flags_semis", "CifModel.C02_char_text_roundtrip",
             "CifModel.C02_analysis_facts", "CifModel.C02_write_char_text",
@@ -15,7 +15,8 @@ REQUIRED = ["CifModel.C02_text_protocol", "CifModel.C02_fold_line_progress", "Ci
             "CifModel.C02_last_column_exact", "CifModel.C02_last_column_exact_doc", "CifModel.C02_lastLineLength_spec",
             "CifModel.C02_clean_of_line_hypotheses", "CifModel.C02_cex_column_cr", "CifModel.C02_cex_cr_written_raw",
             "CifModel.C02_line_bound_chars", "CifModel.C02_line_hypotheses_chars", "CifModel.C02_charLength_le", "CifModel.C02_cex_line_units",
-            "CifModel.C02_roundtrip_doc_nl", "CifModel.C02_line_bound_of_valid"]
+            "CifModel.C02_roundtrip_doc_nl", "CifModel.C02_line_bound_of_valid",
+            "CifModel.C02_cex_hypotheses", "CifModel.C02_empty_loop_refused"]
 GEN = ["WriterConsts", "ErrCodes"]
 FAMILIES = ["decode", "writeval", "write", "wstatic"]
 TRUSTED_BASE = [
